@@ -181,7 +181,7 @@ def configs(tier):
     spss = (1, 2, 3, 5, 8) if q else (1, 2, 3, 4, 5, 6, 7, 8, 9, 11, 16, 17, 32)
     for shape in ('nrz', 'rz'):
         for sps in spss:
-            for n in ((1, 3) if q else (1, 2, 4)):
+            for n in ((1, 3) if q else (1, 2, 4, 6)):
                 if q and sps == 8 and n == 3:
                     n = 2
                 forms = ('list',) if (q and sps not in (2, 3)) else ('list', 'tuple', 'ndarray', 'bs')
